@@ -91,7 +91,16 @@ func checkC13(c *checkCtx) {
 	if c.thorough() {
 		nGen = 40
 	}
-	for i := 0; len(ws.specs) < nGen && i < nGen*6; i++ {
+	// two corpus grammars first (one whose RULES are named ERROR and EOF like the built-in terminals:
+	// sorting symbols by name does not order them)
+	nCorpus := 0
+	for _, f := range []string{"rule_named_like_builtin.lox", "nested_caps.lox"} {
+		if b, err := os.ReadFile(filepath.Join(verifDir, "corpus", "grammars", f)); err == nil {
+			ws.add(string(b))
+			nCorpus++
+		}
+	}
+	for i := 0; len(ws.specs) < nGen+nCorpus && i < nGen*6; i++ {
 		g := genGrammar(c.rng, gramOpts{maxRules: 5, maxTokens: 5})
 		s := ws.add(g.text())
 		s.tag = g
